@@ -56,6 +56,18 @@ def pool_digests(prop, engine_name, n, workers):
     return [[r["digest"], r["abstract"], len(r["violations"])] for r in results]
 
 
+def pool_batch_digest(prop, engine_name, n, workers):
+    if engine_name != "e4":
+        os.environ["DATAITER_USE_NUMBA"] = "0"
+    results, harness = kernel.fan_out(engine_name, prop, 0, n, "quick", workers, 3600,
+                                      chunk=5 if engine_name != "e4" else 1,
+                                      want_samples=())
+    if harness:
+        raise RuntimeError(harness[0])
+    total = kernel.fan_out.last_summary
+    return sorted(total.get("chunk_digests", []))
+
+
 def main(tier, only=None):
     bad = 0
     from concurrent.futures import ThreadPoolExecutor
@@ -75,14 +87,23 @@ def main(tier, only=None):
     with ThreadPoolExecutor(max_workers=5) as ex:
         outs = list(ex.map(one, jobs))
     for (prop, engine_name, n), a, b, c in outs:
-        d4 = pool_digests(prop, engine_name, min(n, 60 if engine_name != "e4" else 4), 4)
-        d16 = pool_digests(prop, engine_name, min(n, 60 if engine_name != "e4" else 4), 16)
-        m = len(d4)
+        m = min(n, 60 if engine_name != "e4" else 4)
+        d4 = pool_batch_digest(prop, engine_name, m, 4)
+        d16 = pool_batch_digest(prop, engine_name, m, 16)
+        # expected chunk digests from the fresh-interpreter digests
+        import hashlib
+        step = 5 if engine_name != "e4" else 1
+        exp = []
+        for lo in range(0, m, step):
+            h = hashlib.sha256()
+            for x in a[lo:lo + step]:
+                h.update(str(x[0]).encode())
+            exp.append([lo, h.hexdigest()])
         diffs = {
             "fresh-interpreter-twice": sum(x != y for x, y in zip(a, b)),
             "PYTHONHASHSEED-12345": sum(x != y for x, y in zip(a, c)),
-            "pool-4-workers": sum(x != y for x, y in zip(a[:m], d4)),
-            "pool-16-workers": sum(x != y for x, y in zip(a[:m], d16)),
+            "pool-4-workers": sum(list(x) != list(y) for x, y in zip(exp, d4)) + abs(len(exp) - len(d4)),
+            "pool-16-workers": sum(list(x) != list(y) for x, y in zip(exp, d16)) + abs(len(exp) - len(d16)),
         }
         ok = not any(diffs.values())
         print(f"[selftest] {prop} engine={engine_name} seeds={n} {'OK' if ok else 'DIVERGED'} {diffs}",
